@@ -777,6 +777,46 @@ func initFmtIntrinsics() {
 		err, target := a[0].(iface), a[1].(iface)
 		return fr.errorsIs(err, target, 0), true
 	})
+	reg("errors.As", func(fr *frame, a []value) (value, bool) {
+		err, ok := a[0].(iface)
+		if !ok {
+			panic(engineError("errors.As: err is not an interface value"))
+		}
+		target := a[1].(iface)
+		pt, ok := target.t.Underlying().(*types.Pointer)
+		if !ok || target.v.(*value) == nil {
+			panic(targetPanic{v: iface{t: rtErrType, v: "errors: target must be a non-nil pointer"}})
+		}
+		elemT := pt.Elem()
+		cell := target.v.(*value)
+		for depth := 0; depth < 20 && err.t != nil; depth++ {
+			if it, isIface := elemT.Underlying().(*types.Interface); isIface {
+				if types.Implements(err.t, it) {
+					fr.i.rawStore(cell, err)
+					return true, true
+				}
+			} else if types.Identical(err.t, elemT) {
+				fr.i.store(elemT, cell, err.v)
+				return true, true
+			}
+			// As(any) bool method
+			ms := fr.i.prog.MethodSets.MethodSet(err.t)
+			for i := 0; i < ms.Len(); i++ {
+				sel := ms.At(i)
+				if sel.Obj().Name() == "As" {
+					sig := sel.Type().(*types.Signature)
+					if sig.Params().Len() == 1 && sig.Results().Len() == 1 {
+						if fr.decideValue(call(fr.i, fr, 0, fr.i.prog.MethodValue(sel), []value{err.v, target})) {
+							return true, true
+						}
+					}
+				}
+			}
+			next, _ := fr.unwrapErr(err).(iface)
+			err = next
+		}
+		return false, true
+	})
 	reg("errors.Unwrap", func(fr *frame, a []value) (value, bool) {
 		return fr.unwrapErr(a[0].(iface)), true
 	})
